@@ -255,15 +255,19 @@ func (e *Exec) storeAddr(fr *frame, st *State, a *Addr, v Val, pos token.Pos) {
 
 // havocAll forgets every heap (used for unmodelled effects).
 func (e *Exec) havocAll(st *State) {
-	lock, hasLock := st.heaps["G$lock"]
-	if _, known := e.heapInfos["G$lock"]; known && !hasLock {
-		lock, hasLock = e.heapTerm(st, "G$lock"), true
+	keep := map[string]string{}
+	for _, n := range tlHeaps {
+		if t, ok := st.heaps[n]; ok {
+			keep[n] = t
+		} else if _, known := e.heapInfos[n]; known {
+			keep[n] = e.heapTerm(st, n)
+		}
 	}
 	st.epoch = e.newEpoch()
 	st.heaps = map[string]string{}
-	if hasLock {
-		// which locks this goroutine holds is not changed by other code
-		st.heaps["G$lock"] = lock
+	// which locks and permissions this goroutine holds is not changed by other code
+	for n, t := range keep {
+		st.heaps[n] = t
 	}
 	for k := range st.cells {
 		if k.Heap {
@@ -306,6 +310,26 @@ func (e *Exec) inFrame(heap, ref string) string {
 }
 
 var _ = ssa.NaiveForm
+
+// tlHeaps: ghost heaps that describe the current goroutine only (which locks
+// it holds, which WaitGroup tokens and channel-close permissions it owns).
+// Other goroutines cannot change them; a new goroutine starts with all zero
+// except for what its `holds` clauses transfer from the spawner.
+var tlHeaps = []string{"G$lock", "G$wgtok", "G$wgst", "G$mayclose"}
+
+func isTL(name string) bool {
+	for _, n := range tlHeaps {
+		if n == name {
+			return true
+		}
+	}
+	return false
+}
+
+func (e *Exec) tlHeap(st *State, name string) string {
+	e.regHeap(name, arraySort(sInt, sInt), nil, 'G', "")
+	return e.heapTerm(st, name)
+}
 
 // lockHeap: ghost heap mapping a mutex address to the mode in which the
 // current goroutine holds it (0 none, 1 read, 2 write).
